@@ -919,8 +919,17 @@ func ruleT9(rule string, funcs ...[2]string) func(*Ctx) {
 			}
 			vis := commodityPathsVisited(c.P, fd)
 			fname := c.P.declName(fd)
+			var viaFlow map[string]bool
 			for _, path := range all {
 				_, ok := vis[path]
+				if !ok && fq[1] == "checkUndeclaredCommodities" {
+					// the visitor may be handed the commodity by its callers (a check object, an iterator): follow
+					// the range of the emitted diagnostic back to the posting fields it is read from
+					if viaFlow == nil {
+						viaFlow = postingFieldsBehindEmission(c, fd)
+					}
+					ok = viaFlow[strings.SplitN(path, ".", 2)[0]]
+				}
 				c.check(ok, rule, fname, "visits posting."+path+".Commodity", fd.Pos(),
 					"commodity site is visited",
 					"commodity occurrences at posting."+path+".Commodity are not visited (sibling collectors do visit them): such occurrences are silently skipped")
@@ -1125,4 +1134,45 @@ func ruleT7T8(c *Ctx) {
 			"the parser refers to "+k, "the lexer emits "+k+" but no parser branch ever tests for it: such a token can only fall into the error path, so a construct the lexer recognises produces a syntax error")
 	}
 	c.census("T8", "token kinds emitted by the lexer", len(es), 15)
+}
+
+// postingFieldsBehindEmission: the fields of ast.Posting that the range of the diagnostic emitted in fd is read
+// from, following parameters up through the call sites (and the yields of iterators).
+func postingFieldsBehindEmission(c *Ctx, fd *ast.FuncDecl) map[string]bool {
+	out := map[string]bool{}
+	F := c.P.ssaOf(fd)
+	if F == nil {
+		return out
+	}
+	ci := buildConc(c)
+	fns := append([]*ssa.Function{F}, F.AnonFuncs...)
+	for _, f := range fns {
+		for _, b := range f.Blocks {
+			for _, ins := range b.Instrs {
+				st, ok := ins.(*ssa.Store)
+				if !ok {
+					continue
+				}
+				fa, ok := st.Addr.(*ssa.FieldAddr)
+				if !ok || !typeHasSuffix(fa.X.Type(), "internal/analyzer.Diagnostic") || fieldVarOfAddr(fa).Name() != "Range" {
+					continue
+				}
+				for v := range sliceUpN(ci, st.Val, f, 4) {
+					switch x := v.(type) {
+					case *ssa.FieldAddr:
+						if typeHasSuffix(x.X.Type().Underlying().(*types.Pointer).Elem(), "ast.Posting") {
+							out[fieldVarOfAddr(x).Name()] = true
+						}
+					case *ssa.Field:
+						if typeHasSuffix(x.X.Type(), "ast.Posting") {
+							if stt, ok := x.X.Type().Underlying().(*types.Struct); ok {
+								out[stt.Field(x.Field).Name()] = true
+							}
+						}
+					}
+				}
+			}
+		}
+	}
+	return out
 }
